@@ -77,10 +77,21 @@ func c01Judge(ev string, err error, before, after vh.Ledger, pw *vh.PoolWorld, c
 	return "", ""
 }
 
+// c01Session is a prepared, non-initial state: hosts and clients connected, peers tracked, a
+// shared wallet, and (for the 1-minute configurations) part of an interval already elapsed.
+var c01Session = []string{"conn H1", "conn H2", "conn C1", "conn C2", "upd C1 H1,H2", "upd C2 H1", "link W1 C1", "tick 30s", "upd H1 -", "upd H2 -"}
+
 func c01BFS(driver string, cfg c01Cfg, depth, shard, nshards int, faults bool) vh.Unit {
+	return c01BFSFrom(driver, cfg, depth, shard, nshards, faults, nil)
+}
+
+func c01BFSFrom(driver string, cfg c01Cfg, depth, shard, nshards int, faults bool, prefix []string) vh.Unit {
 	name := fmt.Sprintf("ledger-bfs/%s/p%s-i%s-min%s/d%d/%d", driver, cfg.price[:min(4, len(cfg.price))], cfg.interval, cfg.min, depth, shard)
 	if faults {
 		name = "fault-" + name
+	}
+	if prefix != nil {
+		name = "session-" + name
 	}
 	cast := vh.StdCast()
 	type world struct {
@@ -96,6 +107,9 @@ func c01BFS(driver string, cfg c01Cfg, depth, shard, nshards int, faults bool) v
 					w.fs = vh.NewFaultStore(s)
 					return w.fs
 				})
+				for _, e := range prefix {
+					vh.PoolEvent(w.pw, cast, e)
+				}
 				return w
 			},
 			Events: func(interface{}) []string { return c01Events },
@@ -130,6 +144,9 @@ func c01BFS(driver string, cfg c01Cfg, depth, shard, nshards int, faults bool) v
 						w2.fs = vh.NewFaultStore(s)
 						return w2.fs
 					}, 1)
+					for _, e := range prefix {
+						vh.PoolEvent(w2.pw, cast, e)
+					}
 					for _, e := range hist[:len(hist)-1] {
 						vh.PoolEvent(w2.pw, cast, e)
 					}
@@ -176,6 +193,8 @@ func c01Race(driver, scen string, bound int) vh.Unit {
 		"link-vs-update":        {"upd C1 H1", "link W1 H1"},
 		"link-vs-link":          {"link W1 C1", "link W1 H1", "upd C2 H1"},
 		"three-clients":         {"upd C1 H1,H2", "upd C2 H1,H2", "upd H1 C1"},
+		"host-keepalive-vs-first-credit": {"upd C1 H1", "upd H1 -"},
+		"host-reconnect-vs-credit":       {"upd C1 H1,H2", "conn H1"},
 	}[scen]
 	body := func() {
 		pw = c01World(driver, c01Cfg{"1000", "1m", "off"}, nil)
@@ -264,11 +283,24 @@ func init() {
 					}
 				}
 				us = append(us, c01BFS(vh.Badger, c01Cfgs[3], 2, 0, 1, true))
+				for _, cfg := range c01Cfgs {
+					for s := 0; s < 6; s++ {
+						us = append(us, c01BFSFrom(vh.Memory, cfg, 4, s, 6, false, c01Session))
+					}
+					us = append(us, c01BFSFrom(vh.Badger, cfg, 3, 0, 1, false, c01Session))
+				}
+				for _, cfg := range c01Cfgs[:4] {
+					us = append(us, c01BFSFrom(vh.Memory, cfg, 3, 0, 1, true, c01Session))
+				}
 			} else {
 				for _, cfg := range c01Cfgs {
 					us = append(us, c01BFS(vh.Memory, cfg, 3, 0, 1, false))
 				}
 				us = append(us, c01BFS(vh.Badger, c01Cfgs[3], 3, 0, 2, false), c01BFS(vh.Badger, c01Cfgs[3], 3, 1, 2, false))
+				for _, cfg := range c01Cfgs {
+					us = append(us, c01BFSFrom(vh.Memory, cfg, 3, 0, 1, false, c01Session))
+				}
+				us = append(us, c01BFSFrom(vh.Badger, c01Cfgs[3], 2, 0, 1, false, c01Session), c01BFSFrom(vh.Memory, c01Cfgs[3], 2, 0, 1, true, c01Session))
 				us = append(us, c01BFS(vh.Memory, c01Cfgs[3], 2, 0, 1, true), c01BFS(vh.Badger, c01Cfgs[1], 2, 0, 1, true))
 			}
 			for _, d := range vh.Drivers {
@@ -279,7 +311,7 @@ func init() {
 				if tier == "thorough" {
 					bound++
 				}
-				for _, sc := range []string{"two-clients-one-host", "client-and-host-share", "link-vs-update"} {
+				for _, sc := range []string{"two-clients-one-host", "client-and-host-share", "link-vs-update", "host-keepalive-vs-first-credit", "host-reconnect-vs-credit"} {
 					us = append(us, c01Race(d, sc, bound))
 				}
 				us = append(us, c01Race(d, "link-vs-link", bound-1), c01Race(d, "three-clients", bound-1))
